@@ -166,6 +166,28 @@ def probe_order(inp: Dict[str, Any]) -> Dict[str, Any]:
             "fields": {"kinds": ["order"] if bad else [], "stub": inp.get("stub", True)}}
 
 
+def probe_energy_work(inp: Dict[str, Any]) -> Dict[str, Any]:
+    """the stored potential energy changes by minus the work of the stored forces along the stored displacements (trapezoid rule, error ~ dt^2 over a
+    fixed time): holds iff the forces that move the atoms are the gradient of the energy that is written, whatever optional terms are switched on"""
+    names, T = inp["names"], inp["time"]
+    out = {}
+    for dt in (inp["dt"], inp["dt"] / 2):
+        n = int(round(T / dt))
+        r = _md(names, dt, inp.get("temp", 600.0), inp.get("seed", 2), False, n, sp_over=inp.get("sp_over"))
+        D = 0.0
+        for m, nm in enumerate(names):
+            X, F, Ep = r["mols"][m]["coordinates"], r["mols"][m]["forces"], r["mols"][m]["data"][:, 2]
+            for i in range(len(X) - 1):
+                D += (Ep[i + 1] - Ep[i]) + 0.5 * float(((F[i] + F[i + 1]) * (X[i + 1] - X[i])).sum())
+        out[dt] = D
+    d1, d2 = abs(out[inp["dt"]]), abs(out[inp["dt"] / 2])
+    bad = []
+    if d1 > 1e-8 and not (d1 / max(d2, 1e-300) > 2.5):
+        bad.append(f"potential-energy change and work of the stored forces disagree by {d1:.3e} eV at dt={inp['dt']} and {d2:.3e} eV at dt/2 (consistent forces: ratio ~4, found {d1 / max(d2, 1e-300):.2f})")
+    return {"ok": not bad, "observed": bad or [f"work defect {d1:.2e} -> {d2:.2e}"], "expected": "dEp = -work of the stored forces up to O(dt^2)", "predicate": "defect(dt)/defect(dt/2) > 2.5 or defect < 1e-8 eV",
+            "fields": {"kinds": ["energy_work"] if bad else [], "options": sorted((inp.get("sp_over") or {}).keys())}}
+
+
 def probe_driver_reuse(inp: Dict[str, Any]) -> Dict[str, Any]:
     """one MD driver object used for a second system of the same padded shape (different species per slot): the second trajectory must be
     the one a fresh driver produces, and must conserve momentum"""
@@ -216,7 +238,7 @@ def probe_driver_reuse(inp: Dict[str, Any]) -> Dict[str, Any]:
         shutil.rmtree(d, ignore_errors=True)
 
 
-PROBES = {"conservation": probe_conservation, "reversal": probe_reversal, "order": probe_order, "driver_reuse": probe_driver_reuse}
+PROBES = {"energy_work": probe_energy_work, "conservation": probe_conservation, "reversal": probe_reversal, "order": probe_order, "driver_reuse": probe_driver_reuse}
 
 
 def corr_step(ctx: Ctx, drv):
@@ -264,6 +286,9 @@ def gen_cases(ctx: Ctx):
     cases.append(("conservation", {"names": ["h2o", "ch4"], "dt": 0.8, "steps": 25, "stub": True, "seed": int(rng.integers(1, 999))}))
     cases.append(("reversal", {"names": ["h2o"], "dt": 0.5, "steps": 30, "stub": True, "seed": int(rng.integers(1, 999))}))
     cases.append(("reversal", {"names": ["h2"], "dt": 0.3, "steps": 6, "stub": False, "seed": 3, "tol": 1e-8}))
+    # forces that move the atoms = gradient of the energy that is written, with the optional Hamiltonian terms on (pair corrections act between the two methanes)
+    cases.append(("energy_work", {"names": ["ch4_dimer"], "dt": 0.5, "time": 3.0, "seed": int(rng.integers(1, 999)), "sp_over": {"dispersion": True}}))
+    cases.append(("energy_work", {"names": [str(rng.choice(["h2o", "nh3", "ch2o"]))], "dt": 0.4, "time": 2.4, "seed": int(rng.integers(1, 999)), "sp_over": {"method": str(rng.choice(["AM1", "PM3", "MNDO", "PM6_SP"]))}}))
     cases.append(("order", {"names": ["h2o"], "dt": 0.4, "time": 6.4, "stub": True, "seed": int(rng.integers(1, 999))}))
     cases.append(("driver_reuse", {"first": ["ch4", "h2o"], "second": ["h2o", "ch4"], "dt": 0.5, "steps": 8, "stub": True}))
     if ctx.thorough:
